@@ -95,6 +95,42 @@ Theorem C09_every_schedule_from_every_reachable_state_ends_quiescent :
   quiescent st' /\ all_certain (tags st') = true.
 Proof. exact reachable_schedules_end_quiescent. Qed.
 
+(* ---- error paths of the jobs (round 4).
+   An import job that fails (unreadable capture: builder.FromPcap reports processedFiles with no index) still takes
+   its files out of the queue and, when captures are queued behind it, the completion starts the next import job. *)
+Theorem C09_failed_import_does_not_block_the_queue :
+  forall k p st nf r, jimp st = Some (mkImp nf (Some r)) -> ir_idx r = [] ->
+  let st' := step k p (AComplete JImport) st in
+  queue st' = skipn (ir_proc r) (queue st) /\ (queue st' <> [] -> jimp st' <> None).
+Proof.
+  intros k p st nf r J E. simpl. rewrite J, E.
+  assert (forall s, qframe s (start_merge (start_converter (start_tagging p s)))) as QF.
+  { intros s. eapply qframe_trans; [apply start_tagging_q|]. eapply qframe_trans; [apply start_converter_q|].
+    unfold start_merge. destruct (merge_eligible _); split; reflexivity. }
+  match goal with |- context[start_merge (start_converter (start_tagging p ?s))] => destruct (QF s) as (Q1 & Q2) end.
+  rewrite Q1, Q2. destruct (skipn (ir_proc r) (queue st)) eqn:SK; simpl; rewrite SK; simpl.
+  - split; [reflexivity|intros H; exfalso; apply H; reflexivity].
+  - split; [reflexivity|intros _; discriminate].
+Qed.
+
+(* witness: two captures queued, the first is unreadable: the second is taken by the next job *)
+Example C09_failed_import_witness :
+  let st := run repaired [(0, AImport [1; 2]); (0, ABodyImport (mkIresp 1 0 0 0 0 [])); (0, AComplete JImport)] (init [0]) in
+  queue st = [2] /\ jimp st = Some (mkImp 1 None).
+Proof. vm_compute. split; reflexivity. Qed.
+
+(* A tagging job whose evaluation fails (a data filter on a converter that does not exist: the search returns an error
+   and updateTagJob clears Matches and Uncertain) = a job whose evaluation matches nothing: the tag is decided, the
+   other work goes on.  Witness: stream 0 imported, tag 5 with a data definition added, its job evaluates to nothing and
+   completes: no job left, every tag certain, quiescent.  (Every schedule terminates: C09_every_schedule_..., which
+   holds because the completion stores the job's result with Uncertain reduced to what changed during the job.) *)
+Example C09_failed_tag_evaluation_settles :
+  let st := run repaired [(0, AImport [0]); (0, ABodyImport (mkIresp 1 0 0 1 1 [1])); (0, AComplete JImport);
+                          (0, AAddTag 5 (mkDef 1 false false true true [] [] false) 0);
+                          (5, ABodyTag []); (5, AComplete JTag)] (init [0]) in
+  jtag st = None /\ all_certain (tags st) = true /\ queue st = [] /\ jimp st = None.
+Proof. vm_compute. repeat split; reflexivity. Qed.
+
 (* The unrepaired code (56f3838; corpus/C09/merge-not-restarted-after-convert.json): at rest with an eligible
    merge that nothing will start *)
 Theorem C09_merge_not_restarted_refuted :
